@@ -117,14 +117,38 @@ def pool():
     return _POOL
 
 
-def solve_many(queries, timeout_s=20, use_cvc5=True):
-    """queries: list of smt2 strings -> list of (status, model|reason, seconds, backend)"""
+def solve_many(queries, timeout_s=20, use_cvc5=True, deadline=None):
+    """queries: list of smt2 strings -> list of (status, model|reason, seconds, backend).
+    deadline (absolute time.time()): queries not answered by then are `unknown` (wall budget of the check)."""
+    global _POOL
     if not queries:
         return []
     args = [(q, int(timeout_s * 1000), use_cvc5) for q in queries]
-    if len(queries) == 1 or os.environ.get('VERIF_SERIAL'):
-        return [_solve(a) for a in args]
-    return pool().map(_solve, args, chunksize=1)
+    if os.environ.get('VERIF_SERIAL'):
+        out = []
+        for a in args:
+            if deadline is not None and time.time() > deadline:
+                out.append(('unknown', 'wall budget of the check exhausted', 0.0, 'none'))
+            else:
+                out.append(_solve(a))
+        return out
+    p = pool()
+    handles = [p.apply_async(_solve, (a,)) for a in args]
+    out = []
+    killed = False
+    for h in handles:
+        if deadline is None:
+            out.append(h.get())
+            continue
+        try:
+            out.append(h.get(timeout=max(0.05, deadline - time.time())))
+        except mp.TimeoutError:
+            out.append(('unknown', 'wall budget of the check exhausted', 0.0, 'none'))
+            killed = True
+    if killed:
+        p.terminate()
+        _POOL = None
+    return out
 
 
 def quick_sat(hyps, timeout_ms=1500):
